@@ -42,6 +42,11 @@ func processInit() {
 			dir = os.TempDir()
 		}
 		// level 6 is above Fatal: nothing is ever written; the logger only has to exist.
+		if d := os.Getenv("SIM_DEBUG_NODELOG"); d != "" {
+			// developer aid: the node's own log, level Info, into the given directory
+			log.NewDefault(d, 1, 0, 0)
+			return
+		}
 		log.NewDefault(filepath.Join(dir, "nodelog"), 6, 0, 0)
 	})
 }
